@@ -550,6 +550,16 @@ func GenFull(t *rapid.T, o Opts) *hx.Schema {
 			s.ExtRoots["subscription"] = subName
 		}
 	}
+	for _, op := range []string{"query", "mutation", "subscription"} {
+		if (s.Roots[op] != "" || s.ExtRoots[op] != "") && rapid.IntRange(0, 3).Draw(t, "rootDescribed"+op) == 0 {
+			if d := g.desc("schema" + op); d != "" {
+				if s.RootDescs == nil {
+					s.RootDescs = map[string]string{}
+				}
+				s.RootDescs[op] = d
+			}
+		}
+	}
 	if !explicit && rapid.IntRange(0, 2).Draw(t, "impliedSchemaGivenDirectives") == 0 {
 		// the implied schema is given directive uses by an extension
 		s.ExtRootDirs = g.dirUses("SCHEMA", "schemaextdu")
